@@ -252,3 +252,17 @@ def undefined_names(run, project, rule, modules, what="internal error", dead_in=
         visit(top, "")
     run.ob(rule, True, f"every name read in a function resolves to a binding ({n_fn} functions, {n_names} module-level / builtin names)")
     return n_fn, n_names
+
+
+def locate_function(project, module, name):
+    """(module, FunctionDef) of the top-level function `name` as visible from `module` (defined there or imported, following
+    re-exports), or (None, None)"""
+    f = module.functions().get(name)
+    if f is not None:
+        return module, f
+    r = project.resolve_name(module, name)
+    if r and r[1]:
+        f = r[0].functions().get(r[1])
+        if f is not None:
+            return r[0], f
+    return None, None
